@@ -56,6 +56,16 @@ func verifShutdown(nExt int, trigger string) {
 	shutdownEvents := map[string]int{}
 	w.sup.runtimeScript = func(p *verifProc) {
 		p.ignoreTerm = rtBeh == vrIgnoresTerm
+		if verifC09Internal {
+			// an internal extension living inside the runtime process (INVOKE only: internal
+			// extensions cannot subscribe to SHUTDOWN)
+			verifSpawnEnv(func() {
+				rec := w.extRegister("internal:internal0", "internal0", []string{"INVOKE"})
+				if rec.status == 200 {
+					w.extNext("internal:internal0", rec.hdr.Get("Lambda-Extension-Identifier"))
+				}
+			})
+		}
 		w.runtimeNext(p.name)
 	}
 	w.sup.extScript = func(p *verifProc, base string) {
@@ -209,6 +219,11 @@ func verifShutdown(nExt int, trigger string) {
 	}
 }
 
+var verifC09Internal bool
+
+// the only registered extension is an INTERNAL one: it counts as an extension (TERM first)
+func VerifC09Reset0Internal() { verifC09Internal = true; verifShutdown(0, "timeout") }
+
 func VerifC09Reset0()        { verifShutdown(0, "timeout") }
 func VerifC09Reset1()        { verifShutdown(1, "timeout") }
 func VerifC09Reset1Failure() { verifShutdown(1, "failure") }
@@ -239,5 +254,32 @@ func VerifC09AfterUnreaped() {
 	t2 := w.t()
 	w.ctx.HandleShutdown(&interop.Shutdown{DeadlineNs: w.mono() + 2000*1000000})
 	verifAssert(w.t()-t2 <= 100*1000000, "a later shutdown with nothing running returns at once")
+	verifReach("done")
+}
+
+// C15 (orchestrator level, reset reasons "failure"/"timeout" as the platform API defines them):
+// healthy invocation A; B's runtime exits -> failure reset; C re-initialises inline and the new
+// runtime exits during that initialisation -> failure reset; healthy D. The event monitor checks
+// that every runtime-done (also the one emitted by a reset) carries the id of the invocation it
+// follows, with at most one per invocation.
+func VerifC15ResetRuntimeDone() {
+	w := newVerifWorld(nil, true, false)
+	w.SetPlan([][]int{{VbRespond, VbExit}, {VbExitEarly}, {VbRespond}})
+	w.sup.runtimeScript = w.plannedRuntime()
+	ir := w.doInit()
+	verifWaitAll()
+	verifAssert(ir.done && ir.success, "initialisation completes")
+	a := w.doInvoke("req-A", []byte("a"))
+	verifAssert(a.failure == nil, "A succeeds")
+	b := w.doInvoke("req-B", []byte("b"))
+	verifAssert(b.failure != nil, "B fails (runtime exit)")
+	w.doReset("failure", 2000)
+	c := w.doInvoke("req-C", []byte("c"))
+	verifAssert(c.failure != nil, "C fails (runtime exits during the inline initialisation)")
+	w.doReset("failure", 2000)
+	d := w.doInvoke("req-D", []byte("d"))
+	verifAssert(d.failure == nil, "D is served by a new generation")
+	verifSettle()
+	w.CheckEventGrammar()
 	verifReach("done")
 }
